@@ -39,7 +39,7 @@ func run(prop string) {
 	case "C06":
 		runC06()
 	case "C02":
-		runDuplicateAck()
+		runDuplicateAck(prop)
 	case "C18":
 		if simrt.Chance(1, 2, "raw-upload") {
 			runRawUpload()
@@ -53,6 +53,10 @@ func run(prop string) {
 		}
 		if prop == "C16" && simrt.Chance(1, 10, "foreign-close") {
 			runForeignClose()
+			return
+		}
+		if (prop == "C03" || prop == "C04") && simrt.Chance(1, 12, "duplicated-open-ack") {
+			runDuplicateAck(prop)
 			return
 		}
 		if prop == "C17" && simrt.Chance(1, 8, "open-races-upstream-loss") {
